@@ -78,6 +78,21 @@ def nested_any_order(g):
     return doc, [("1000", "vfmadd231ss", order), ("1005", "ret", [])], "nested-any-order-operand"
 
 
+def sibling_any_order(g):
+    """two `$and_any_order` groups side by side (or one per rule of consecutive compilations): each group permutes its
+    OWN children only; a window made of one group's children twice must not be found"""
+    a, b, c, d = g.r.sample(["mov", "add", "nop", "push", "pop", "xor", "inc", "dec"], 4)
+    if g.chance(0.5):
+        doc = {"pattern": [{"$and_any_order": [a, b]}, {"$and_any_order": [c, d]}]}
+        win = g.pick([[a, b, b, a], [b, a, a, b], [a, b, d, c], [b, a, c, d], [c, d, a, b], [a, b, c, c]])
+        insts = [("%x" % (0x2000 + 2 * i), mn, ["%rax"] if mn not in ("nop",) else []) for i, mn in enumerate(win)]
+        return doc, insts, "sibling-any-order-inst"
+    x, y, z, w = g.r.sample(["rax", "rbx", "rcx", "rdx", "rsi", "rdi"], 4)
+    doc = {"pattern": [{"vpinsrq": [{"$and_any_order": [x, y]}, {"$and_any_order": [z, w]}]}]}
+    ops = g.pick([[x, y, y, x], [y, x, w, z], [x, y, z, w], [z, w, x, y], [x, y, z, z]])
+    return doc, [("2000", "vpinsrq", ["%" + r for r in ops]), ("2006", "ret", [])], "sibling-any-order-operand"
+
+
 def run(ctx, factor):
     ctx.report.rule = ("random nestings (depth <= 3) of $or/$and/$and_any_order at instruction level, operand "
                        "level and inside $deref fields; listings realise one alternative / one ordering, then one "
@@ -85,7 +100,8 @@ def run(ctx, factor):
                        "metamorphic check on the implementation; non-trivial = reached the specification comparison")
     rep = ctx.report
     for it in range(ctx.budget(60, 2500) * factor):
-        doc, insts, tag = prefix_alternatives(ctx.g) if it % 3 else nested_any_order(ctx.g)
+        doc, insts, tag = (sibling_any_order(ctx.g) if it % 6 in (0, 1) else
+                           prefix_alternatives(ctx.g) if it % 3 else nested_any_order(ctx.g))
         o = patdiff.observe(ctx, doc, insts, modes=("bool", "all", "first"))
         usable = patdiff.correspondence(ctx, o)
         if usable:
